@@ -4,6 +4,7 @@ import (
 	"fmt"
 	"go/token"
 	"go/types"
+	"strings"
 
 	"golang.org/x/tools/go/ssa"
 )
@@ -63,6 +64,17 @@ func checkC01(c *Check) {
 		if ic.collector != nil {
 			collectorSharing(c, ic)
 		}
+	}
+	// the same for whatever else the goroutines of the compile path share: a
+	// captured variable or map written by two of them without a lock
+	{
+		var pf []*ssa.Function
+		for _, f := range p.RepoFuncs() {
+			if fnPkgPath(f) == repoMod+"/pkg/parse" && f.Parent() == nil && !strings.HasSuffix(p.fnFile(f), "_test.go") {
+				pf = append(pf, f)
+			}
+		}
+		c07Captures(c, pf)
 	}
 	// termination: a mutex taken on the compile path is released on every exit
 	n := blockingResources(c, "LOCK-PAIR", "HELD-ACROSS-NESTING", reachSet(p, entries))
